@@ -596,6 +596,6 @@ func (c *FnCtx) appendContainsFacts(st *State, r, s *Term, vs []*Term) {
 		eqs = append(eqs, mkEq(x, v))
 		st.assume(c.seqContains(r, v))
 	}
-	st.assume(mkForall([]Bound{{x.Op, es}}, mkImplies(in(s), in(r)), []*Term{in(s)}))
+	st.assume(mkForall([]Bound{{x.Op, es}}, mkImplies(in(s), in(r)), []*Term{in(s)}, []*Term{in(r)}))
 	st.assume(mkForall([]Bound{{x.Op, es}}, mkImplies(in(r), mkOr(append([]*Term{in(s)}, eqs...)...)), []*Term{in(r)}))
 }
